@@ -100,3 +100,36 @@ Example C06_vmsteps_nonvacuous :
   step BrVMSteps.w_fe BrVMSteps.w_cfg VNil [(IArray, noloc)] s
     = Next (mkSt 1 [VArr TIface [VNil; VBool true]] [] (mkRS 9 [])).
 Proof. vm_compute. repeat split; reflexivity. Qed.
+
+(* ---- over the REGENERATED compiler schemes and the REGENERATED Run (BC/SourceCorrect.v) ---- *)
+Require X.BC.SourceCorrect X.Sem.NoMachine X.BC.Compiler X.BC.Schemes X.gen.GenSchemes X.Syn.Ast.
+
+(* the run read off the source - code from the regenerated schemes, accounting statements of OpArray / OpMap / OpRange
+   inside the regenerated loop, machine in any state - is refused for the memory budget exactly when the language
+   definition refuses *)
+Theorem C06_source_budget_verdict_is_ref :
+  forall fe cfg env c e dc before,
+    X.Sem.NoMachine.fn_no_machine fe -> X.BC.Compiler.compilable e = true -> (X.Syn.Ast.esize e <= dc)%nat ->
+    exists P, X.BC.Schemes.gen_compile_program X.gen.GenSchemes.schemes dc (c_mapenv cfg) c e = Some P /\
+    exists d0, forall d, (d0 <= d)%nat ->
+      VMSteps.run_guard fe cfg env P d init_state = true ->
+      option_map X.BC.SourceCorrect.budget_verdict (VMSteps.interp_run fe cfg env P GenVMSteps.vm_src d before)
+      = Some (X.BC.SourceCorrect.budget_verdict (run_ref fe cfg env c e)).
+Proof. exact X.BC.SourceCorrect.source_budget_verdict_is_ref. Qed.
+Print Assumptions C06_source_budget_verdict_is_ref.
+
+(* filter(map([1, 2, 3], {# + 1}), ..) creates 8 elements: accepted under budget 9, refused under 8 and 7, on both
+   sides; run_guard holds of the three runs *)
+Example C06_source_budget_verdict_nonvacuous :
+  match X.BC.SourceCorrect.cap_code with
+  | Some P =>
+      map (fun b => option_map X.BC.SourceCorrect.budget_verdict
+                      (VMSteps.interp_run BrVMSteps.w_fe (mkCfg false b) VNil P GenVMSteps.vm_src 9 X.BC.SourceCorrect.cap_dirty))
+          [9; 8; 7]
+      = [Some false; Some true; Some true] /\
+      map (fun b => X.BC.SourceCorrect.budget_verdict (run_ref BrVMSteps.w_fe (mkCfg false b) VNil CastNone X.BC.SourceCorrect.cap_ex))
+          [9; 8; 7] = [false; true; true] /\
+      forallb (fun b => VMSteps.run_guard BrVMSteps.w_fe (mkCfg false b) VNil P 9 init_state) [9; 8; 7] = true
+  | None => False
+  end.
+Proof. exact X.BC.SourceCorrect.source_budget_verdict_nonvacuous. Qed.
